@@ -68,7 +68,9 @@ pub fn eval(job: &Job) -> JobResult {
         "C14" => eval_c14(job),
         "C16" => eval_c16(job),
         "C17" => eval_c17(job),
+        "C18" => eval_c18(job),
         "C19" => eval_c19(job),
+        "C20" => crate::fut::eval(job),
         "C15" => eval_c15(job),
         "C07" | "C08" | "C09" | "C10" | "C11" => eval_conf(job),
         other => JobResult { machinery_error: Some(format!("unknown check {}", other)), ..Default::default() },
@@ -1442,6 +1444,68 @@ fn eval_c17(job: &Job) -> JobResult {
         }
         if !sc.done.contains(o) {
             res.violations.push(viol("extra_outcome", fmt_outcome(o), "initialised once per thread / per execution".into(), "".into(), json!({})));
+        }
+    }
+    res
+}
+
+// ------------------------------------------------------------------------------------------
+// C18: spin loops that yield make progress and lose no exit outcome
+// ------------------------------------------------------------------------------------------
+
+fn eval_c18(job: &Job) -> JobResult {
+    let p = &job.program;
+    let mut res = JobResult::default();
+    let rc = rc11::enumerate(p, Variant::Rc11, RC_MAX_STATES);
+    let rcm = if p.has_sc_access() { rc11::enumerate(p, Variant::Rc11Minus, RC_MAX_STATES) } else { rc.clone() };
+    if rc.truncated || rcm.truncated {
+        res.machinery_error = Some("RC11 enumerator truncated".into());
+        return res;
+    }
+    res.states = rc.states;
+    res.transitions = rc.transitions;
+    res.ref_outcomes = rc.outcomes.len() as u64;
+    // the loop may stay unsatisfied in some consistent execution (under either reading of SeqCst)
+    let unsat = rc.stuck || rcm.stuck;
+    if rc.stuck != rcm.stuck {
+        res.dont_care = true;
+        return res;
+    }
+    res.nontrivial = unsat || rc.outcomes.len() >= 2;
+    let (sum, col) = run_loom(p, &job.cfg, None);
+    res.loom_iterations = col.iters;
+    res.loom_outcomes = col.outcomes.len() as u64;
+    res.verdict = sum.verdict.short();
+    res.capped = sum.verdict == Verdict::Capped;
+    res.sample = json!({"program": p.text(), "loop_can_stay_unsatisfied": unsat, "rc11": outs_json(rc.outcomes.iter()), "loom_outcomes": outs_json(col.outcomes.keys()), "loom_verdict": res.verdict, "loom_iterations": col.iters});
+    if res.capped {
+        return res;
+    }
+    let msg = sum.message.lines().next().unwrap_or("").to_string();
+    if unsat {
+        if sum.verdict == Verdict::BranchLimit {
+            res.traces_validated += 1;
+        } else {
+            res.violations.push(viol("unsatisfiable_loop_not_reported", sum.verdict.short(), "panic: Model exceeded maximum number of branches".into(), msg, json!({})));
+        }
+        return res;
+    }
+    if sum.verdict != Verdict::Ok {
+        res.violations.push(viol("no_progress", sum.verdict.short(), "Ok: the awaited store happens in every execution".into(), msg, json!({})));
+        return res;
+    }
+    for o in &rc.outcomes {
+        if col.outcomes.contains_key(o) {
+            res.traces_validated += 1;
+        } else {
+            res.violations.push(viol("missing_outcome", fmt_outcome(o), "every exit value / continuation allowed by RC11 is explored".into(), format!("{} iterations, {} outcomes", col.iters, col.outcomes.len()), json!({"loom_outcomes": outs_json(col.outcomes.keys())})));
+        }
+    }
+    for (o, (first, n)) in &col.outcomes {
+        if rcm.outcomes.contains(o) {
+            res.traces_validated += *n;
+        } else {
+            res.violations.push(viol("extra_outcome", fmt_outcome(o), "every explored execution is RC11-consistent".into(), format!("first in iteration {}", first), json!({})));
         }
     }
     res
